@@ -138,7 +138,8 @@ class DataManager(MpfController):
             time.sleep(self.min_wait_secs)
 
         # if dirty write data one last time during shutdown
-        if data and self._dirty.is_set():
+        if self._dirty.is_set():
             while FileManager.is_busy:
                 time.sleep(0.2)
-            FileManager.save(self.filename, data)
+            self._dirty.clear()
+            FileManager.save(self.filename, copy.deepcopy(self.data))
